@@ -333,6 +333,42 @@ def _merge_contracts(T, Cond, Val, Variable, Locals, Names, self_obj):
       instance={'other': 'BlockState'}))
 
 
+def extra_obligations(repo):
+  """Frame for A-ADT: conditions, bindings and variables are modelled as algebraic data with STRUCTURAL equality
+  (the equality a frozen dataclass generates: same class, equal fields).  That is only right while no class of these
+  modules defines __eq__/__hash__/__ne__ by hand or switches the generated ones off (eq=False / unsafe_hash)."""
+  import ast
+  from engine import source
+  from engine.core import Obligation
+  out = []
+  for rel in (COND_PY, VARS_PY):
+    m = source.load(repo, rel)
+    for node in m.tree.body:
+      if not isinstance(node, ast.ClassDef):
+        continue
+      bad = []
+      for st in node.body:
+        if isinstance(st, ast.FunctionDef) and st.name in ('__eq__', '__hash__', '__ne__'):
+          bad.append('defines %s' % st.name)
+        if isinstance(st, ast.Assign) and any(isinstance(t, ast.Name) and t.id in ('__eq__', '__hash__', '__ne__') for t in st.targets):
+          bad.append('assigns %s' % ast.unparse(st.targets[0]))
+      for d in node.decorator_list:
+        if isinstance(d, ast.Call):
+          for kw in d.keywords:
+            if kw.arg in ('eq', 'unsafe_hash', 'order') and ast.unparse(kw.value) != {'eq': 'True', 'unsafe_hash': 'False', 'order': 'False'}[kw.arg]:
+              bad.append('decorator sets %s=%s' % (kw.arg, ast.unparse(kw.value)))
+      o = Obligation('C18/%s::%s/frame#structural-equality' % (rel, node.name), 'frame', [], z3.BoolVal(not bad), line=node.lineno,
+                     detail='class %s keeps the structural equality/hash its dataclass decorator generates (A-ADT)%s' % (
+                         node.name, ': ' + ', '.join(bad) if bad else ''))
+      o.owner = '%s::%s' % (rel, node.name)
+      o.prechecked = True
+      o.status = 'proved' if not bad else 'sat'
+      o.backend = 'frame-scan'
+      o.model = None if not bad else '; '.join(bad)
+      out.append(o)
+  return out
+
+
 NATIVE_IN_QUICK = True   # 1-second bounded sweep on the real modules (labelled bounded, never counted as proved)
 SURROUND = ['pytype/rewrite/flow/frame_base.py (threads states through blocks)',
             'pytype/rewrite/frame.py (builds the Variables that are stored; must keep binding values distinct: A-DISTINCT)']
